@@ -1030,7 +1030,11 @@ class MySQLParser(SQLParser):
 
     @_('INTEGER')
     def integer(self, p):
-        return int(p[0])
+        try:
+            return int(p[0])
+        except ValueError:
+            # Python refuses to convert more digits than sys.get_int_max_str_digits() (4300 by default)
+            raise ParsingException(f'Integer is too long ({len(p[0])} digits): {p[0][:20]}...')
 
     @_('QUOTE_STRING')
     def quote_string(self, p):
